@@ -25,7 +25,7 @@ import itertools
 
 from harness import core, rng, runner, tree
 
-PROP_MODULES = ["AQ.Props.C17"]
+PROP_MODULES = ["AQ.Props.C17", "AQ.Props.C17tls"]
 P62 = 1 << 62
 P64 = 1 << 64
 V1 = 1
@@ -747,4 +747,7 @@ def main(tier):
         "multi-range set / accepted decode / >=2 parameters; distinct by op-sequence hash."
     )
     ctx.cov["exhaustive"] = True
+    # TLS handshake message codecs (tls.py): round trips, declared-length confinement, acceptance model
+    from checks import c17_tls
+    c17_tls.run(ctx, tier)
     return ctx.finish()
